@@ -18,6 +18,9 @@ func c13Jobs(tier string) []Job {
 		{[]string{"u"}, "-unquote(u)"}, {[]string{"u"}, "unquote(u)[0]"}, {[]string{"u", "v", "w"}, "if unquote(u) {unquote(v)} else {unquote(w)}"},
 		{[]string{"u", "v", "w", "z"}, "unquote(u) + unquote(v) * unquote(w) - unquote(z)"}, {[]string{"u"}, "func(t){t OP unquote(u)}(3)"},
 		{[]string{"u"}, "for i = 2 {unquote(u)}"}, {[]string{"u", "v"}, "unquote(u)"}, {[]string{"u"}, "{1: unquote(u)}[1]"},
+		// one parameter used several times inside one container
+		{[]string{"u"}, "[unquote(u), unquote(u), unquote(u)]"}, {[]string{"u"}, "{unquote(u): 1, unquote(u): 2}"}, {[]string{"u", "v"}, "{unquote(u): unquote(v), unquote(v): unquote(u)}"},
+		{[]string{"u"}, "{1: unquote(u), 2: unquote(u)}"}, {[]string{"u"}, "f(unquote(u)) OP f(unquote(u))"}, {[]string{"u"}, "if unquote(u) {unquote(u)} else {unquote(u)}"},
 	}
 	ops := []string{"+", "*", "-", "<", "&&", "=="}
 	if tier == "thorough" {
@@ -73,6 +76,24 @@ func c13Jobs(tier string) []Job {
 		Job{Prop: "C13", Pkg: "eval", Func: "VerifMacro", MaxDec: 800, Args: []string{
 			"m = macro(u){quote(unquote(u) + 1)}\nn = macro(u, v){quote(unquote(u) * unquote(v))}\no = macro(){quote(7)}\np = macro(u){quote(-unquote(u))}",
 			"n(m(a), p(b)) + o()", "((a) + 1) * (-(b)) + (7)", "m,n,o,p"}},
+		// a parameter named like a variable the session already binds; a call with too many / too few arguments
+		Job{Prop: "C13", Pkg: "eval", Func: "VerifMacro", MaxDec: 800, Args: []string{
+			"m = macro(a){quote(unquote(a) * 2)}", "m(b + 1) + a", "((b + 1)) * 2 + a", "m"}},
+		Job{Prop: "C13", Pkg: "eval", Func: "VerifMacro", MaxDec: 800, Args: []string{
+			"m = macro(a, b){quote(unquote(b) - unquote(a))}", "[m(c, a), a, b]", "[((a)) - ((c)), a, b]", "m"}},
+		Job{Prop: "C13", Pkg: "eval", Func: "VerifMacro", MaxDec: 800, Args: []string{
+			"m = macro(u){quote(unquote(u) + 1)}", "m(b, c)", `error("wrong number of macro arguments, want=1, got=2")`, "m"}},
+		Job{Prop: "C13", Pkg: "eval", Func: "VerifMacro", MaxDec: 800, Args: []string{
+			"m = macro(u, v){quote(unquote(u) + unquote(v))}", "m(b)", `error("wrong number of macro arguments, want=2, got=1")`, "m"}},
+		Job{Prop: "C13", Pkg: "eval", Func: "VerifMacro", MaxDec: 800, Args: []string{
+			"m = macro(){quote(7)}", "m(println(b))", `error("wrong number of macro arguments, want=0, got=1")`, "m"}},
+		// a parameter named like another macro
+		Job{Prop: "C13", Pkg: "eval", Func: "VerifMacro", MaxDec: 800, Args: []string{
+			"am = macro(u){quote(unquote(u) + 1)}\nm = macro(am){quote(unquote(am) * 2)}",
+			"am(b) + m(c) + am(b)", "((b) + 1) + ((c) * 2) + ((b) + 1)", "am,m"}},
+		Job{Prop: "C13", Pkg: "eval", Func: "VerifMacro", MaxDec: 800, Args: []string{
+			"m = macro(m){quote(unquote(m) - 1)}\nn = macro(m, n){quote(unquote(m) - unquote(n))}",
+			"m(b) * n(c, b) * m(c)", "((b) - 1) * ((c) - (b)) * ((c) - 1)", "m,n"}},
 		Job{Prop: "C13", Pkg: "eval", Func: "VerifMacro", MaxDec: 800, Args: []string{
 			"unless = macro(cond, yes, no){quote(if !(unquote(cond)) {unquote(yes)} else {unquote(no)})}",
 			`unless(a > b, println("not greater"), println("greater"))`, `if !(a > b) {(println("not greater"))} else {(println("greater"))}`, "unless"}},
@@ -88,7 +109,7 @@ func init() {
 		Jobs:   func(tier string, seed int64) []Job { return c13Jobs(tier) },
 		Budget: map[string]time.Duration{"quick": 8 * time.Minute, "thorough": 60 * time.Minute},
 		Reach:  []string{"expanded"},
-		Bounds: map[string]interface{}{"templates": "18 quoted templates with 0..4 parameters each used 0..3 times at operand, call-argument, index, condition, statement, loop-body, lambda-body and map-value positions, the operator next to the unquote taken from 6 operators (12 thorough)",
+		Bounds: map[string]interface{}{"templates": "24 quoted templates (incl. one parameter used several times inside one array / map / call / if) with 0..4 parameters each used 0..3 times at operand, call-argument, index, condition, statement, loop-body, lambda-body and map-value positions, the operator next to the unquote taken from 6 operators (12 thorough)",
 			"arguments":  "11 argument sets: identifiers, infix expressions binding looser and tighter than the template context, printing calls, arguments that fail if evaluated (10/a), comparisons, arrays, calls, a lambda, prefix expressions",
 			"call_sites": "top level, inside a function, inside a loop, twice in one array literal; a macro call as argument of another macro; a three-parameter control macro",
 			"values":     "all int64 for a,b,c,d; booleans p,q"},
